@@ -16,10 +16,14 @@ import (
 
 func tweak(variant int) func(cfg *fosite.Config) {
 	return func(cfg *fosite.Config) {
+		if variant == 0 {
+			cfg.JWKSFetcherStrategy = fosite.NewDefaultJWKSFetcherStrategy()
+		}
 		if variant == 1 {
 			// default-constructed strategy fields: the getters supply the defaults
 			cfg.ScopeStrategy = nil
 			cfg.AudienceMatchingStrategy = nil
+			cfg.JWKSFetcherStrategy = nil
 		}
 	}
 }
@@ -44,6 +48,11 @@ func flows(w *world.World, tag string) {
 		panic("revoke failed " + tag)
 	}
 	w.Password("c2", []string{"photos"})
+	// what client authentication by private_key_jwt with a jwks_uri asks the configuration for (the fetch
+	// itself is the environment's business)
+	if w.Cfg.GetJWKSFetcherStrategy(w.Ctx) == nil {
+		panic("no JWKS fetcher " + tag)
+	}
 }
 
 func watch(w *world.World) {
